@@ -61,8 +61,15 @@ def worker(item: Any, res: runner.Result) -> None:
                 witness[det] = run
         if len(witness) == len(detect.DETECTORS):
             break
+    # "comparisons with run-time values are a documented heuristic of the tool and lie outside the claim":
+    # a Fee comparand loaded with intc from a constant block the tool cannot resolve is such a value
+    fee_heuristic = any(l.op.startswith("intc") and l.op != "intcblock" for l in case.lines) and any(
+        l.args and l.args[-1] == "Fee" for l in case.lines)
     verdict = []
     for det in detect.DETECTORS:
+        if det == "missing-fee-check" and fee_heuristic and det in witness:
+            res.count("outside_claim:fee_compared_with_value_the_tool_cannot_evaluate")
+            del witness[det]
         try:
             paths = harness.run_detector(case.tealer, det)
         except BaseException as e:  # pylint: disable=broad-except
